@@ -46,7 +46,7 @@ DefaultCfg == [ic |-> 2, tc |-> 0, tt |-> 0, minz |-> 0, maxz |-> 0, cz |-> 0,
 (* ---- observations of the hook (feature verif): sizes of the builder's maps ---------- *)
 \* evaluated on the state AFTER the call (primed variables written out: the event itself is a constant)
 MemContentsP == {x[3] : x \in {y \in tileById' : y[2] = "mem"}}
-MemBytesP == FoldSet(LAMBDA p, acc : acc + lens'[p[2]], 0, dataByHash')
+MemBytesP == FoldSet(LAMBDA h, acc : acc + lens'[dataByHash'[h]], 0, DOMAIN dataByHash')
 CountsTagsP(e) ==
   IF ~Has(e, "counts") THEN {}
   ELSE (IF e.counts[1] # Cardinality(abs') THEN {"C04:num_ids_differs_from_map"} ELSE {})
@@ -83,6 +83,7 @@ SaveTags(e) ==
   IF cfg.ic = 0
   THEN (IF e.res = "err" THEN {} ELSE {"C19:unknown_internal_compression_not_refused_on_write"})
   ELSE IF e.res # "ok" THEN {"C01:write_failed"}
+  ELSE IF Has(e, "light") THEN {}            \* very large archive: judged through its re-opening only
   ELSE IF Has(e.file, "undissectable") THEN {"C02:written_file_unreadable"}
   ELSE LET wf == A!WellFormed(e.file) IN
        (IF wf # "ok" THEN {"C02:" \o wf} ELSE {})
@@ -114,7 +115,7 @@ Keep == UNCHANGED <<cfg, lens, saved, cur>>
 
 TrNew ==
   /\ IsEvent("New")
-  /\ abs' = {} /\ tileById' = {} /\ dataByHash' = {} /\ idsByHash' = {} /\ reply' = Ok
+  /\ abs' = {} /\ tileById' = {} /\ dataByHash' = <<>> /\ idsByHash' = {} /\ reply' = Ok
   /\ cfg' = [DefaultCfg EXCEPT !.tt = Rec[l].tt, !.tc = Rec[l].tc]
   /\ UNCHANGED <<lens, saved, cur>>
   /\ Emit({})
@@ -184,7 +185,7 @@ TrBulk ==
          m  == {<<ts[k].id, ts[k].tok>> : k \in 1..Len(ts)} IN
        /\ abs' = m
        /\ tileById' = {<<p[1], "mem", p[2]>> : p \in m}
-       /\ dataByHash' = {<<p[2], p[2]>> : p \in m}
+       /\ dataByHash' = [c \in {p[2] : p \in m} |-> c]
        /\ idsByHash' = {<<p[2], p[1]>> : p \in m}
        /\ lens' = [c \in {ts[k].tok : k \in 1..Len(ts)} |-> 0] @@ lens    \* lengths unused for bulk
        /\ reply' = Ok
@@ -220,7 +221,7 @@ TrObserve ==
 \* new trace segment: forget the store, keep the save history (C16 compares across segments)
 TrReset ==
   /\ IsEvent("Reset")
-  /\ abs' = {} /\ tileById' = {} /\ dataByHash' = {} /\ idsByHash' = {} /\ reply' = Ok
+  /\ abs' = {} /\ tileById' = {} /\ dataByHash' = <<>> /\ idsByHash' = {} /\ reply' = Ok
   /\ cfg' = DefaultCfg
   /\ UNCHANGED <<lens, saved, cur>>
   /\ Emit({})
